@@ -46,6 +46,16 @@ def install():
         return out
 
     forcefield.Forcefield.get_params = get_params
+    # --ffout rewrites atom/residue names after assignment: remember the canonical names the lookup used
+    from pdb2pqr.biomolecule import Biomolecule
+    orig_ans = Biomolecule.apply_name_scheme
+
+    def apply_name_scheme(self, forcefield_):
+        for atom in self.atoms:
+            atom._vf_name = atom.name
+        return orig_ans(self, forcefield_)
+
+    Biomolecule.apply_name_scheme = apply_name_scheme
     STATE["installed"] = True
 
 
@@ -183,7 +193,7 @@ def check_run(res, spec, m, r, model, opts):
             continue
         if id(residue) in ambiguous:
             continue
-        names = {a.name for a in residue.atoms}
+        names = {getattr(a, "_vf_name", a.name) for a in residue.atoms}
         ss = id(residue) in bonded
         ffn = states.ff_name(tr, names, opts, ss)
         if ffn is None:
@@ -194,17 +204,13 @@ def check_run(res, spec, m, r, model, opts):
             res.nt(spec["ff"] if spec["ff"] != "USER" else "USER-" + spec.get("base", ""), ffn, pos)
         for a in residue.atoms:
             res.count("atoms_checked")
-            row = ffmap.lookup(model, ffn, a.name if opts.ffout is None else a.name)
-            if opts.ffout is not None:
-                # names were rewritten after assignment; compare through the object values only
-                row = None if id(a) in missed and a.ffcharge is None else "skip"
+            aname = getattr(a, "_vf_name", a.name)      # canonical name (before any --ffout renaming)
+            row = ffmap.lookup(model, ffn, aname)
             wit = {"ff": spec["ff"], "opts": spec["opts"], "residue": f"{tr['resn']} {tr['chain']} {tr['resi']}",
-                   "state_name": ffn, "atom": a.name, "w": spec["w"], "seed": spec["seed"]}
-            if row == "skip":
-                continue
+                   "state_name": ffn, "atom": aname, "w": spec["w"], "seed": spec["seed"]}
             if row is None:
                 if id(a) not in missed:
-                    res.violate("e2e/no-row-but-written", f"{ffn}/{a.name} has no force-field row but is written with "
+                    res.violate("e2e/no-row-but-written", f"{ffn}/{aname} has no force-field row but is written with "
                                 f"q={a.ffcharge} r={a.radius}", **wit)
                 continue
             if id(a) in missed:
